@@ -506,11 +506,24 @@ def _group(metas, m):
     return metas.get(m, m) if isinstance(metas, dict) else m
 
 
-def _unify(pat, term, binding, metas):
+class Metas(dict):
+    """Metavariable table (name -> alias group) with optional definition maps used for expansion:
+    pdefs: metavariable -> normal form of its defining pattern (the code may have inlined that temp);
+    cdefs: code variable -> normal form of its unique plain definition (the code may have introduced
+    a temp that the documented statement does not have)."""
+
+    def __init__(self, names, pdefs=None, cdefs=None):
+        dict.__init__(self, names if isinstance(names, dict) else {n: n for n in names})
+        self.pdefs = pdefs or {}
+        self.cdefs = cdefs or {}
+
+
+def _unify(pat, term, binding, metas, depth=0):
     if isinstance(pat, tuple) and len(pat) == 2 and pat[0] == 'var' and pat[1] in metas:
         m = pat[1]
         if m in binding:
-            if binding[m] == term:
+            bm = binding[m]
+            if bm == term or (isinstance(bm, tuple) and bm and bm[0] == 'expanded' and bm[1] == term):
                 yield binding
             return
         if isinstance(term, tuple) and term and term[0] in ('var', 'attr', 'param', 'bound'):
@@ -520,8 +533,23 @@ def _unify(pat, term, binding, metas):
             b = dict(binding)
             b[m] = term
             yield b
+            return
+        pd = getattr(metas, 'pdefs', {}).get(m)
+        if pd is not None and depth < 6:
+            # the code has inlined the temporary this metavariable stands for
+            for b in _unify(pd, term, binding, metas, depth + 1):
+                b = dict(b)
+                b[m] = ('expanded', term)
+                yield b
         return
     if isinstance(pat, tuple) and isinstance(term, tuple):
+        if term and term[0] == 'var' and len(term) == 2 and not (pat and pat[0] == 'var') and depth < 6:
+            cd = getattr(metas, 'cdefs', {}).get(term[1])
+            if cd is not None:
+                # the code has introduced a temporary for a documented sub-expression
+                for b in _unify(pat, cd, binding, metas, depth + 1):
+                    yield b
+                return
         if len(pat) != len(term):
             return
         if pat and pat[0] in AC_HEADS and term[0] == pat[0]:
